@@ -105,6 +105,8 @@ def configs(tier):
     add("tucker_normalize", opt="tuple")
     for kind in ("non_negative", "l1_reg", "simplex", "monotonicity", "hard_sparsity", "unimodality", "normalize", "soft_sparsity"):
         add("prox", kind=kind, mode="fork" if kind in ("hard_sparsity", "unimodality") else "merge")
+        if kind in ("non_negative", "l1_reg", "monotonicity", "normalize", "hard_sparsity"):
+            add("prox", kind=kind, vec=1, mode="fork" if kind in ("hard_sparsity",) else "merge", **({"max_paths_": 3000} if kind == "hard_sparsity" else {}))
     add("tenalg", opt="all")
     for o_ in ("tt", "tr", "tucker"):
         add("rank_lists", opt=o_)
@@ -113,7 +115,7 @@ def configs(tier):
     add("active_set", opt="warm_backtrack")
     add("cp_regressor", opt="fit")
     add("tucker_regressor", opt="fit")
-    for o_ in ("congruence", "corrindex_stacked", "regression") + (() if tier == "quick" else ("corrindex_max",)):
+    for o_ in ("congruence", "corrindex_stacked", "corrindex_max", "regression"):
         add("metrics", opt=o_)
     add("preprocessing", opt="parafac2_compression", mode="fork")
     for o_ in ("tt", "ttm", "tr"):
@@ -443,7 +445,17 @@ def harness(E, cfg):
             from tensorly.tenalg.proximal import proximal_operator
 
             kind = cfg["kind"]
-            v = snap.arr("tensor", np.array(E.real("v", (2, 2) if kind not in ("hard_sparsity",) else (3,))))
+            if cfg.get("vec"):
+                # 1-D argument (a reshape of it is a view: in-place writes reach the caller), and a column view of a caller-owned matrix
+                v = snap.arr("vector", np.array(E.real("v", (3,))))
+                Mv = snap.arr("owning_matrix", np.array(E.real("Mv", (3, 2))))
+                p = True if kind in ("non_negative", "monotonicity", "unimodality", "normalize") else (1 if kind == "hard_sparsity" else E.real("p", pos=True))
+                proximal_operator(v, **{kind: p})
+                proximal_operator(Mv[:, 0], **{kind: p})
+                raise_done = True
+            else:
+                raise_done = False
+            v = snap.arr("tensor", np.array(E.real("v2" if cfg.get("vec") else "v", (2, 2) if kind not in ("hard_sparsity",) else (3,))))
             p = True if kind in ("non_negative", "monotonicity", "unimodality", "normalize") else (1 if kind == "hard_sparsity" else E.real("p", pos=True))
             proximal_operator(v, **{kind: p})
         elif ep == "tenalg":
